@@ -58,3 +58,5 @@ pub fn fail_with(args: &[P]) -> FFIReturnValue {
     };
     raise_error!(m)
 }
+
+include!("names.rs");
